@@ -3,7 +3,7 @@ ENGINES = [
     {"name": "E2", "path": "mc/props/c06.py", "kind_free_text": "explicit-state breadth-first search over call histories of a real Record (state = history replayed on a fresh object, canonical state hash, invariants in every state, differential oracles)",
      "serves_properties": ["C06", "C08"]},
     {"name": "E1", "path": "mc/engine/core.py", "kind_free_text": "bounded exhaustive input enumeration of the real functions against set-of-bases / truth-table reference models, sharded over processes",
-     "serves_properties": ["C01", "C02", "C03", "C04", "C05", "C07", "C08", "C09", "C14", "C15", "C16"]},
+     "serves_properties": ["C01", "C02", "C03", "C04", "C05", "C07", "C08", "C09", "C14", "C15", "C16", "C19"]},
 ]
 NOT_APPLICABLE = {}
 CHECKS = {
@@ -84,4 +84,11 @@ CHECKS = {
                      "completeness and trans-AT flags recomputed independently, Module.from_json(to_json) identity. Every head x tail pair (three strand "
                      "pairs) goes through combine_modules: never raises, merged = head+tail(+trailing KR) in order, complete, bookkeeping exact.",
                 note="Label sets are taken as data from the module, the rules are independent; bounded-exhaustive rather than a state graph because the builder's look-ahead makes prefixes non-mergeable (see DESIGN)."),
+    "C19": dict(engine="E1", level="exploration", ref="DESIGN.md 5/C19",
+                technique="bounded exhaustive enumeration of regions (area sets on slotted line/ring records) through the real layout code; invariants of the statement on every region",
+                text="Every region of every record built from <=3-4 areas (subregions and real protoclusters of two products, nested/touching/origin-spanning/"
+                     "whole-record) with genes incl. an origin-spanning one goes through build_area_rows and js.convert_regions: per kind the drawn extents "
+                     "(halves of one group joined, modulo L) equal the features' extents, same-row areas are disjoint, everything lies in the announced range, "
+                     "cores lie in their extents, gene drawings cover exactly the genes.",
+                note="6-7 slots; gene tooltip rendering stubbed (no coordinates); completeness judged on multisets because layout areas carry no identifiers."),
 }
